@@ -3154,6 +3154,19 @@ namespace bloch::runtime {
                                  "null reference");
             }
             if (obj.type == Value::Type::ClassRef && obj.classRef) {
+                // super.f names the inherited instance field f of this object (before a method of the
+                // same name is considered: the analyser types super.f as the field)
+                if (dynamic_cast<SuperExpression*>(memAcc->object.get())) {
+                    Value self = lookup("this");
+                    RuntimeField* inherited = findInstanceField(obj.classRef, memAcc->member);
+                    if (inherited && self.type == Value::Type::Object && self.objectValue &&
+                        inherited->offset < self.objectValue->fields.size()) {
+                        Value fv = self.objectValue->fields[inherited->offset];
+                        if (fv.type == Value::Type::Qubit || fv.type == Value::Type::QubitArray)
+                            fv.objectValue = self.objectValue;
+                        return fv;
+                    }
+                }
                 auto [field, owner] = findStaticFieldWithOwner(obj.classRef, memAcc->member);
                 RuntimeMethod* method = findMethod(obj.classRef, memAcc->member);
                 if (field && owner) {
@@ -3166,18 +3179,6 @@ namespace bloch::runtime {
                     v.classRef = obj.classRef;
                     v.className = obj.classRef->name;
                     return v;
-                }
-                // super.f names the inherited instance field f of this object
-                if (dynamic_cast<SuperExpression*>(memAcc->object.get())) {
-                    Value self = lookup("this");
-                    RuntimeField* inherited = findInstanceField(obj.classRef, memAcc->member);
-                    if (inherited && self.type == Value::Type::Object && self.objectValue &&
-                        inherited->offset < self.objectValue->fields.size()) {
-                        Value fv = self.objectValue->fields[inherited->offset];
-                        if (fv.type == Value::Type::Qubit || fv.type == Value::Type::QubitArray)
-                            fv.objectValue = self.objectValue;
-                        return fv;
-                    }
                 }
                 throw BlochError(ErrorCategory::Runtime, memAcc->line, memAcc->column,
                                  "member not found on class");
